@@ -19,7 +19,7 @@ INLINE = ["*em*", "**strong**", "`code`", "`a b`", "[link](http://x.y)", "[l k](
           "`超时timeout`", "`a `", "` b`", "`> `", "[文档](http://x.y/部署v2/ \"标题T\")", "<span title=\"中文abc\">", "<http://x.y/部署v2>", "![img](i/图a.png)",
           "\\*lit\\*", "2023\\.", "7\\)", "\\# no", "\"quoted\"", "it's", "wait...", "a_b_c", "2*3*4", "&amp;", "x<y",
           # delimiter runs whose flanking depends on the neighbouring character (also a line break), intraword and nested emphasis
-          "ico\ue000n", "\ue001\ue002\ue003x", "[sp](<b c>)", "[pa](<x(y>)", "![im](<a b.png> \"t\")", "[bal](http://x.y/z_(w))",
+          "``a`b``", "`a``b`", "`` `x ``", "`f(``t``, n)`", "ico\ue000n", "\ue001\ue002\ue003x", "[sp](<b c>)", "[pa](<x(y>)", "![im](<a b.png> \"t\")", "[bal](http://x.y/z_(w))",
           "~(old)~", "~was it?~", "foo***bar***baz", "a*b*c", "***both***"]
 TAGS = ["{% t %}", "{% /t %}", "{{ v }}", "{# c #}", "<!-- h -->", "{% a x=\"1 2\" %}", "{% t %}{% /t %}", "<!-- a --><!-- /a -->",
         "{% p l=\"50% used\" %}", "{{ i % 2 }}", "{# 10 # 2 #}", "<!-- a - b -> c -->",
